@@ -940,6 +940,18 @@ pub fn drive(ctx: &mut Ctx, w: &mut World, mut extra: impl FnMut(&mut Ctx, &mut 
         extra(ctx, w)?;
         let pick = enabled[ctx.ch.draw("sched.pick", enabled.len() as u64) as usize];
         advance_time(ctx, w.cfg.time_scale);
+        {
+            // abstract state: (client phase, accepted, finished, items received bucket, pending
+            // server actions bucket, windows known on either side, who is enabled)
+            use crate::engine::{fnv_new, fnv_u64};
+            let mut h = fnv_new();
+            h = fnv_u64(h, w.cli_phase as u64);
+            h = fnv_u64(h, w.cli_accepted as u64 | (w.finished_events.min(2) as u64) << 1 | (w.cfg.publish as u64) << 3);
+            h = fnv_u64(h, w.received_items.min(3) as u64 | (w.srv_actions.len().min(3) as u64) << 2);
+            h = fnv_u64(h, w.cli.c.ack.window().is_some() as u64 | (w.srv.c.ack.window().is_some() as u64) << 1);
+            h = fnv_u64(h, enabled.iter().fold(0u64, |a, e| a | 1 << *e));
+            ctx.state(h);
+        }
         match pick {
             0 => w.deliver_c2s(ctx)?,
             1 => w.deliver_s2c(ctx)?,
